@@ -639,6 +639,23 @@ pub fn terms_oracle(c: &TermsCase) -> Verdict {
                     other.map(|t| denote(&t).render())
                 ),
             }
+            // the recursive conversion is the same conversion when no value is itself a list or a map
+            let flat = plist.iter().all(|e| match e {
+                OwnedTerm::Tuple(kv) => !matches!(kv[1], OwnedTerm::List(_) | OwnedTerm::Map(_) | OwnedTerm::Nil | OwnedTerm::ImproperList { .. } | OwnedTerm::Tuple(_) | OwnedTerm::String(_)),
+                _ => true,
+            });
+            if flat && !plist.is_empty() && p.is_proplist() {
+                match p.to_map_recursive() {
+                    Ok(m3) if denote(&m3).same(&denote(&m)) => {}
+                    other => vfail!(
+                        "to-map-recursive-differs-from-proplist-to-map",
+                        "to_map_recursive of {} gives {:?}, proplist_to_map {}",
+                        denote(&p).render(),
+                        other.map(|t| denote(&t).render()),
+                        denote(&m).render()
+                    ),
+                }
+            }
             let pairs = |t: &OwnedTerm| -> Vec<(Value, Value)> {
                 match denote(t) {
                     Value::List { elems, .. } => elems
